@@ -50,16 +50,23 @@ theorem C16_spelling (fs : FS) (cwd : Str) (o : PackOpts) (s s' : Str)
   rw [pk_pathAbs_abs cwd s hs, pk_pathAbs_abs cwd s' hs', hc]
   simp [ht, ht']
 
-/-- **C16_spelling_trailing_slash.** When the source is not a symlink a trailing slash (or its
-absence) makes no difference either (`C16_cex_root_link_trailing_slash` shows that for a symlink
-it does). -/
+/-- **C16_spelling_trailing_slash.** When the source is a directory (or does not exist: `Lstat`
+fails) a trailing slash (or its absence) makes no difference either.  For a symlink it does
+(`C16_cex_root_link_trailing_slash`), and for a regular or special file too: `os.Lstat("file/")`
+is `ENOTDIR` (`C16_trailing_slash_on_file_is_error`). -/
 theorem C16_spelling_trailing_slash (fs : FS) (cwd : Str) (o : PackOpts) (s s' : Str)
     (hs : isAbs s = true) (hs' : isAbs s' = true) (hc : pathClean s = pathClean s')
-    (hnl : ∀ t, fs.lstat (pathClean s) ≠ .ok (.link t)) :
+    (hd : ∀ n, fs.lstat (pathClean s) = .ok n → ∃ pm mt, n = .dir pm mt) :
     pack fs cwd o s = pack fs cwd o s' := by
+  have hnl : ∀ t, fs.lstat (pathClean s) ≠ .ok (.link t) := by
+    intro t ht
+    obtain ⟨pm, mt, h⟩ := hd _ ht
+    cases h
   apply pk_pack_spelling_core fs cwd o s s' hs hs' hc
-  rw [pk_rootInfo_nolink fs cwd s (by rw [pk_pathAbs_abs cwd s hs]; exact hnl),
-    pk_rootInfo_nolink fs cwd s' (by rw [pk_pathAbs_abs cwd s' hs', ← hc]; exact hnl),
+  rw [pk_rootInfo_nolink fs cwd s (by rw [pk_pathAbs_abs cwd s hs]; exact hnl)
+      (by rw [pk_pathAbs_abs cwd s hs]; exact fun _ => hd),
+    pk_rootInfo_nolink fs cwd s' (by rw [pk_pathAbs_abs cwd s' hs', ← hc]; exact hnl)
+      (by rw [pk_pathAbs_abs cwd s' hs', ← hc]; exact fun _ => hd),
     pk_pathAbs_abs cwd s hs, pk_pathAbs_abs cwd s' hs', hc]
 
 /-- **C16_spelling_relative.** A relative spelling (any mix of names, `.`, `..`, doubled and
@@ -67,12 +74,14 @@ trailing slashes; also the empty string and `.`) of a source that is not a symli
 result as the absolute path `filepath.Abs` makes of it — in particular the rule file is looked up
 in the same place (`filepath.Abs(filepath.Join(rel, ".terraformignore"))` is
 `filepath.Join(filepath.Abs(rel), ".terraformignore")`).  The working directory is absolute, as
-`os.Getwd` guarantees. -/
+`os.Getwd` guarantees.  A spelling with a trailing slash must not name a regular or special file
+(`hd`; `Lstat("file/")` is `ENOTDIR`, `filepath.Abs` drops the slash). -/
 theorem C16_spelling_relative (fs : FS) (cwd : Str) (o : PackOpts) (rel : Str)
     (hcwd : isAbs cwd = true) (hrel : isAbs rel = false)
-    (hnl : ∀ t, fs.lstat (pathAbs cwd rel) ≠ .ok (.link t)) :
+    (hnl : ∀ t, fs.lstat (pathAbs cwd rel) ≠ .ok (.link t))
+    (hd : hasSuffix rel ['/'] = true → ∀ n, fs.lstat (pathAbs cwd rel) = .ok n → ∃ pm mt, n = .dir pm mt) :
     pack fs cwd o rel = pack fs cwd o (pathAbs cwd rel) :=
-  pk_pack_spelling_rel fs cwd o rel hcwd hrel hnl
+  pk_pack_spelling_rel fs cwd o rel hcwd hrel hnl hd
 
 /-! ## counterexamples (findings F22, F23, F30) and non-vacuity -/
 
@@ -132,5 +141,25 @@ theorem C16_cex_root_link_trailing_slash :
     pack c16fs "/".toList c16o "/t/l2/".toList = (pkEmpty, .ok) ∧
     pack c16fs "/".toList c16o "/t/l2".toList = (c16a, .ok) := by
   refine ⟨by decide, by decide⟩
+
+/-- `/t/plain` is a regular file, `/t/d` a directory holding `a` -/
+def c16fsFile : FS := [
+  (["t".toList], .dir 0o755 0),
+  (["t".toList, "plain".toList], .file 0o644 0 "hi".toList),
+  (["t".toList, "d".toList], .dir 0o755 0),
+  (["t".toList, "d".toList, "a".toList], .file 0o644 0 "hi".toList)]
+
+/-- **C16_trailing_slash_on_file_is_error.**  The source is a regular file.  Spelled `/t/plain/` the
+root `os.Lstat` fails (`ENOTDIR`: with a trailing slash the name must denote a directory) and
+`Pack` returns the error; spelled `/t/plain` the same call succeeds (with an empty slug: the
+callback skips the root).  So the directory hypothesis of `C16_spelling_trailing_slash` cannot be
+weakened to "not a symlink" (the file is not one); for the directory `/t/d` next to it both spellings agree. -/
+theorem C16_trailing_slash_on_file_is_error :
+    pack c16fsFile "/".toList c16o "/t/plain/".toList = (pkEmpty, .ioerr) ∧
+    pack c16fsFile "/".toList c16o "/t/plain".toList = (pkEmpty, .ok) ∧
+    pathClean "/t/plain/".toList = pathClean "/t/plain".toList ∧
+    c16fsFile.lstat (pathClean "/t/plain/".toList) = .ok (.file 0o644 0 "hi".toList) ∧
+    pack c16fsFile "/".toList c16o "/t/d/".toList = pack c16fsFile "/".toList c16o "/t/d".toList := by
+  refine ⟨by decide, by decide, by decide, by rfl, by decide⟩
 
 end Slug
